@@ -19,7 +19,7 @@ pub fn check(tier: Tier, seed: u64, replay: (Option<&str>, Option<&str>)) -> Vec
 /// Statement pool: texts deliberately shared between clients, with pairs that are adjacent under
 /// naive concatenation of (text, parameter count, parameter types) and pairs differing only in
 /// whitespace inside a literal.
-pub const STMTS: [(&str, &[i32]); 14] = [
+pub const STMTS: [(&str, &[i32]); 15] = [
     ("SELECT $1::int AS x1", &[]),
     ("SELECT $1::int AS x", &[0]),
     ("SELECT $1::int AS x", &[23]),
@@ -34,6 +34,8 @@ pub const STMTS: [(&str, &[i32]); 14] = [
     ("select 2 as two /*@ rows=2 */", &[]),
     ("INSERT INTO t (v) VALUES ($1)", &[23]),
     ("SELECT $1::int AS x1 ", &[]),
+    // parses and binds fine, fails when executed (division by zero, constraint violation ...)
+    ("SELECT 10 / $1::int AS boom /*@ err=0 */", &[23]),
 ];
 
 // ------------------------------------------------------------------------------ lib part
@@ -98,9 +100,11 @@ impl Part for LibPart {
             if back[..] != wa[..] {
                 return Err(format!("roundtrip:Parse decode/encode changed the message: {:?} -> {:?}", wa, back));
             }
-            // rewrite changes only the name
-            let rw = pa.clone().rewrite();
-            let rwb: BytesMut = (&rw).try_into().map_err(|e| format!("encode rewritten: {:?}", e))?;
+            // the pool-level cache's rewritten copy differs from the original only in the name (reached through the cache's
+            // own API rather than Parse::rewrite, whose signature is an implementation detail)
+            let mut cache = pgcat::pool::PreparedStatementCache::new(4);
+            let rw = cache.get_or_insert(&pa, pa.get_hash());
+            let rwb: BytesMut = (&*rw).try_into().map_err(|e| format!("encode rewritten: {:?}", e))?;
             let expect = proto::parse(&rw.name, &c.a_text, &c.a_types);
             if rwb[..] != expect[..] {
                 return Err(format!("rewrite:rewritten Parse differs from the original in more than the name: {:?} vs {:?}", rwb, expect));
@@ -187,7 +191,7 @@ impl Part for WirePart {
         true
     }
     fn rule(&self) -> String {
-        "1..3 clients, prepared_statements_cache_size 1/2/8, pool_size 1..2; histories of 3..16 operations over names {unnamed, s1, s2} shared by all clients and a pool of 14 statements shared between clients (adjacent text/type encodings, whitespace-only differences): Parse, Bind/Describe/Execute of a name (optionally preparing it in the same batch), two statements in one batch, Close, BEGIN/COMMIT to pin connections, SQL PREPARE (forces DEALLOCATE ALL at check-in), a Parse the server rejects. Model: per client name -> most recently prepared (text, types). Oracle per batch, from the mock backend's log: every Execute ran exactly the model's text and parameter types, the backend raised no duplicate/unknown-statement error, Parse/Bind bytes reaching the backend differ from the client's only in the statement name, the client got a complete reply. Non-trivial = two clients use one name for different statements, a statement is evicted, or a batch runs on a connection that has not seen its statement".into()
+        "1..3 clients, prepared_statements_cache_size 1/2/8, pool_size 1..2; histories of 3..16 operations over names {unnamed, s1, s2} shared by all clients and a pool of 14 statements shared between clients (adjacent text/type encodings, whitespace-only differences): Parse, Bind/Describe/Execute of a name (optionally preparing it in the same batch), two statements in one batch, Close, BEGIN/COMMIT to pin connections, SQL PREPARE (forces DEALLOCATE ALL at check-in), a Parse the server rejects, a statement that prepares fine and fails when executed. Model: per client name -> most recently prepared (text, types). Oracle per batch, from the mock backend's log: every Execute ran exactly the model's text and parameter types, the backend raised no duplicate/unknown-statement error, Parse/Bind bytes reaching the backend differ from the client's only in the statement name, the client got a complete reply. Non-trivial = two clients use one name for different statements, a statement is evicted, or a batch runs on a connection that has not seen its statement".into()
     }
     fn cases(&self, tier: Tier) -> u64 {
         tier.pick(1_600, 24_000)
@@ -270,6 +274,8 @@ async fn run_wire(c: &WireCase, ctx: &mut WorkerCtx) -> Outcome {
         let mut sent_parses: Vec<Stm> = vec![];
         let mut sent_bind_rests: Vec<Vec<u8>> = vec![];
         let mut expect_error = false;
+        // the batch's Execute raises an ordinary SQL error (the statement stays prepared, as on a direct connection)
+        let mut exec_fails = false;
         let mut simple: Option<String> = None;
         match op {
             Op::Parse(nm, s) => {
@@ -291,6 +297,16 @@ async fn run_wire(c: &WireCase, ctx: &mut WorkerCtx) -> Outcome {
                     Some(s) => s.clone(),
                     None => continue, // Bind of an unknown statement ends the client (C02/C11), not generated here
                 };
+                if st.0.contains("err=0") {
+                    if in_txn[i] {
+                        // an error inside a transaction block aborts it; everything after it would be refused
+                        if parse_first.is_some() {
+                            names[i].remove(nm);
+                        }
+                        continue;
+                    }
+                    exec_fails = true;
+                }
                 let b = proto::bind("", nm, &[0], &param_for(&st), &[0]);
                 sent_bind_rests.push(proto::decode_bind(&b[5..]).map(|x| x.rest).unwrap_or_default());
                 bytes.extend_from_slice(&b);
@@ -313,6 +329,10 @@ async fn run_wire(c: &WireCase, ctx: &mut WorkerCtx) -> Outcome {
                         o.excluded_known += 1;
                         continue;
                     }
+                }
+                if [*a, *b].iter().any(|k| names[i].get(NAMES[*k as usize % 3]).map(|s| s.0.contains("err=0")).unwrap_or(false)) {
+                    // the failing statement would make the server skip the rest of the batch
+                    continue;
                 }
                 for nmi in [*a, *b] {
                     let nm = NAMES[nmi as usize % 3];
@@ -418,13 +438,19 @@ async fn run_wire(c: &WireCase, ctx: &mut WorkerCtx) -> Outcome {
                 );
                 break;
             }
-            if !client_errors.is_empty() {
+            if !client_errors.is_empty() && !(exec_fails && client_errors.iter().all(|e| e.contains("directed error"))) {
                 o.fail("client-got-error", format!("step {} ({:?}) of c{}: unexpected error {:?}", si, op, i + 1, client_errors));
                 break;
             }
             // a complete reply: one CommandComplete/DataRow group per Execute
             let completes = reply.iter().filter(|m| m.code == b'C').count();
-            if completes != expect_exec.len() {
+            if exec_fails {
+                if !reply.iter().any(|m| m.code == b'E') {
+                    o.fail("statement-error-not-relayed", format!("step {} ({:?}) of c{}: the failing statement's error did not reach the client (reply {:?})", si, op, i + 1, reply.iter().map(|m| m.code as char).collect::<String>()));
+                    break;
+                }
+                o.label("execute_failed_with_sql_error");
+            } else if completes != expect_exec.len() {
                 o.fail("reply-incomplete", format!("step {} ({:?}) of c{}: {} CommandComplete for {} Executes (reply {:?})", si, op, i + 1, completes, expect_exec.len(), reply.iter().map(|m| m.code as char).collect::<String>()));
                 break;
             }
